@@ -190,10 +190,34 @@ def ll1_biased(rng):
     return {"nv": nv, "nt": nt, "start": 0, "prods": prods, "vc": "str"}
 
 
+def nullable_body_case(rng):
+    """S -> A t ; A -> B C (D) ; B -> b | eps ; C -> c | eps ...: nullable bodies of several components whose FIRST
+    sets are pairwise different, optionally a competing production that creates a FIRST/FIRST or FIRST/FOLLOW
+    conflict on a later component"""
+    k = rng.randint(2, 3)
+    nv = 2 + k
+    nt = k + 2
+    prods = [[0, [["V", 1], ["T", 0]]], [1, [["V", 2 + i] for i in range(k)]]]
+    for i in range(k):
+        prods.append([2 + i, [["T", 1 + i]]])
+        if rng.random() < 0.85:
+            prods.append([2 + i, []])
+    r = rng.random()
+    if r < 0.3:
+        prods.append([1, [["T", rng.randint(1, k)], ["T", nt - 1]]])      # conflict on some component's first
+    elif r < 0.45:
+        prods.append([1, [["T", 0]]])                                       # FIRST/FOLLOW conflict
+    elif r < 0.6:
+        prods.append([0, [["T", rng.randint(1, k)]]])
+    return {"nv": nv, "nt": nt, "start": 0, "prods": prods, "vc": "str"}
+
+
 def plan(tier, rng, sl, nslices, stats):
     cfg = TIERS[tier]
     for i in range(cfg["random"]):
-        if i % 2:
+        if i % 5 == 4:
+            yield nullable_body_case(rng)
+        elif i % 2:
             yield ll1_biased(rng)
         else:
             yield gcfg.random_case(rng, max_vars=3, max_terms=rng.choice([2, 3]), max_prods=6, max_body=3, vcs=["str", "lower"])
